@@ -176,7 +176,8 @@ impl G {
             }
             6 => {
                 let f = self.pick(&["match", "search"]);
-                let p = self.pick(&["a", "a.*", "[ab]", "a|b", ".", "b+", "(a|b)*", "["]);
+                let p = self.pick(&["a", "a.*", "[ab]", "a|b", ".", "b+", "(a|b)*", "["]).to_string();
+                let p = if self.r.gen_range(0..3) == 0 { format!("{}x{}", p.replace('[', ""), self.r.gen_range(0..400)) } else { p };
                 format!("{}({}{}{},{}'{}'{})", f, self.s(), self.singular(), self.s(), self.s(), p, self.s())
             }
             _ if depth > 0 => {
